@@ -218,6 +218,9 @@ enum How {
     /// element of `<<: [*bN, {key: value}]`): no anchor is involved, the value is used where it
     /// is written
     MergeInline,
+    /// an alias `*sN` written inside a merged mapping that stands in place (`<<: {key: *sN}`):
+    /// used at the alias, defined at the anchored scalar
+    MergeInlineAlias,
 }
 
 #[derive(Clone, Debug, Serialize, Deserialize, PartialEq)]
@@ -449,6 +452,15 @@ enum N {
     Al { name: String, mark: Option<usize>, cmt: bool },
     Map { ents: Vec<(String, N)>, anchor: Option<String>, flow: bool },
     Seq { items: Vec<N>, anchor: Option<String>, flow: bool },
+}
+
+fn has_alias(n: &N) -> bool {
+    match n {
+        N::Sc { .. } => false,
+        N::Al { .. } => true,
+        N::Map { ents, .. } => ents.iter().any(|(_, v)| has_alias(v)),
+        N::Seq { items, .. } => items.iter().any(has_alias),
+    }
 }
 
 const RESERVED: [&str; 14] = ["null", "true", "false", "yes", "no", "on", "off", "y", "n", "nan", "inf", "~", "-", "<<"];
@@ -815,6 +827,14 @@ impl Bld {
                     t.defm = vec![m];
                     t.via = Via::Merge;
                 }
+                How::MergeInlineAlias => {
+                    let (name, d) = self.pool_scalar(tok);
+                    let a = self.m();
+                    inl.push((yaml.to_string(), N::Al { name, mark: Some(a), cmt: false }));
+                    t.refm = vec![a];
+                    t.defm = vec![d];
+                    t.via = Via::Alias;
+                }
                 How::MergeAlias => {
                     let (name, d) = self.pool_scalar(tok);
                     let a = self.m();
@@ -832,6 +852,22 @@ impl Bld {
                 }
             }
             self.truths.push(t);
+        }
+        if !inl.is_empty() && merge_at % 2 == 1 && (base.is_empty() || flow) {
+            // containers, too, can be supplied by the mapping written in place: the nodes inside
+            // them are used where they are written
+            let mut keep = vec![];
+            for (k, n) in std::mem::take(&mut explicit) {
+                // (not containers with an alias inside: a container supplied this way is buffered
+                // with its aliases expanded, the alias tokens inside it are not recorded - their
+                // use site is lost, an observed limitation listed in DESIGN.md 9.3)
+                if matches!(n, N::Map { .. } | N::Seq { .. }) && k != "<<" && !has_alias(&n) {
+                    inl.push((k, n));
+                } else {
+                    keep.push((k, n));
+                }
+            }
+            explicit = keep;
         }
         if !base.is_empty() {
             let name = format!("b{}", self.pool_b.len());
@@ -1687,6 +1723,7 @@ fn how_b(b: &mut engine::Bytes) -> How {
         10 | 11 => How::Merge,
         12 => How::MergeOver,
         13 => How::MergeAlias,
+        14 => How::MergeInlineAlias,
         _ => How::MergeInline,
     }
 }
@@ -1757,6 +1794,7 @@ fn how_s() -> impl Strategy<Value = How> + Clone + use<> {
         1 => Just(How::MergeOver),
         1 => Just(How::MergeAlias),
         2 => Just(How::MergeInline),
+        1 => Just(How::MergeInlineAlias),
     ]
 }
 fn sleaf_s(c: (usize, usize), pbad: u32) -> impl Strategy<Value = SLeaf> + Clone + use<> {
@@ -2091,7 +2129,7 @@ impl Property for C18 {
     const ID: &'static str = "C18";
     type Case = Case;
     fn rule() -> String {
-        "cases = (validation crate, entry point, options for the *_with_options_* entry points, layout, 1 document or a stream of 1-4 documents); a document is a description of a value of the fixed type family Root{camelCase: shortName, maxCount, type (raw identifier), abC, aBc, netCfg: Net{kebab-case: host-name, port-no, back-ups: [Item]}, items: [Item], byName: BTreeMap<String, Item>}, Item{label, weight, tags: [String]} giving for every leaf its value (satisfying or violating its length/range constraint) and how it is supplied (directly, directly with an anchor, alias to a scalar anchored in a pool, through `<<: *base`, overriding a merged value, through a merge whose base entry is an alias, through a merged mapping written in place), whether an Item is used through an alias to a whole anchored mapping, block/flow style per container, comments with multi-byte text, CRLF, indentation, document markers. The harness renders the YAML and records the line/column of every value token. Oracle: see report-C18.md (result == plain entry point when nothing is violated; otherwise the reported path set == violated constraints evaluated on the plain value, use site and definition site of every issue == ground truth, observed through a recording Localizer in plain and snippet rendering and through Error::location()/locations(); every failing document of a stream is reported). Non-trivial: >= 1 violated constraint reached through an alias, a merge, a renamed field (or below one) or a sequence index. distinct = distinct case descriptions. Sub-check defaulted-field: a violated field filled by its serde default (nesting depth 1-3) is named by the plain and by the miette rendering. Sub-check long-stream: 260 MiB of small valid documents through read and through the validating iterator of each crate give the same items (no input-size cap in either).".into()
+        "cases = (validation crate, entry point, options for the *_with_options_* entry points, layout, 1 document or a stream of 1-4 documents); a document is a description of a value of the fixed type family Root{camelCase: shortName, maxCount, type (raw identifier), abC, aBc, netCfg: Net{kebab-case: host-name, port-no, back-ups: [Item]}, items: [Item], byName: BTreeMap<String, Item>}, Item{label, weight, tags: [String]} giving for every leaf its value (satisfying or violating its length/range constraint) and how it is supplied (directly, directly with an anchor, alias to a scalar anchored in a pool, through `<<: *base`, overriding a merged value, through a merge whose base entry is an alias, through a merged mapping written in place - as a scalar, as an alias inside it, or inside a container that it supplies), whether an Item is used through an alias to a whole anchored mapping, block/flow style per container, comments with multi-byte text, CRLF, indentation, document markers. The harness renders the YAML and records the line/column of every value token. Oracle: see report-C18.md (result == plain entry point when nothing is violated; otherwise the reported path set == violated constraints evaluated on the plain value, use site and definition site of every issue == ground truth, observed through a recording Localizer in plain and snippet rendering and through Error::location()/locations(); every failing document of a stream is reported). Non-trivial: >= 1 violated constraint reached through an alias, a merge, a renamed field (or below one) or a sequence index. distinct = distinct case descriptions. Sub-check defaulted-field: a violated field filled by its serde default (nesting depth 1-3) is named by the plain and by the miette rendering. Sub-check long-stream: 260 MiB of small valid documents through read and through the validating iterator of each crate give the same items (no input-size cap in either).".into()
     }
     fn assumptions() -> Vec<String> {
         vec![
@@ -2198,7 +2236,7 @@ impl Property for C18 {
         // --- enumerated: one violated leaf of a fixed document x supply x entry point x crate x style
         let base = base_doc();
         let nl = n_leaves(&base);
-        let hows = [How::Direct, How::Anchored, How::Alias, How::Merge, How::MergeOver, How::MergeAlias, How::MergeInline];
+        let hows = [How::Direct, How::Anchored, How::Alias, How::Merge, How::MergeOver, How::MergeAlias, How::MergeInline, How::MergeInlineAlias];
         let mut idx = 0u64;
         for leaf in 0..nl {
             for how in &hows {
